@@ -115,6 +115,9 @@ RULE_POOL = [
     ('Prio', 'contains("MYSTERY")', 'Shopping', 'Mystery', '', [], [], [], 90),
     ('Mystery Low', 'contains("MYSTERY SHOP")', 'Fun', 'Mystery', '', [], [], [], None),
     ('Var Rule', 'is_big and contains("BOX")', 'Shopping', 'Bigbox', '', [], [], [], None),
+    # names that differ only in letter case from another merchant (auto-named 'Zed Mart' / rule [Coffee])
+    ('ZED MART', 'contains("ZED MART") and abs(amount) > 20', 'Shopping', 'Zedmart', '', [], [], [], None),
+    ('COFFEE', 'contains("COFFEE ROASTERS")', 'Food', 'Roasters', '', [], [], [], None),
     # tag-only rules
     ('Large Tag', 'is_big', '', '', '', ['large'], [], [], None),
     ('Any Tag', 'amount > 0', '', '', '', ['debit'], [], [], None),
@@ -164,6 +167,16 @@ def gen_rules(rnd, kind, with_supp):
                 byname = {t[0]: t for t in RULE_POOL}
                 pool.insert(at, mkrule(byname[spec_]))
                 pool.insert(rnd.randint(0, at), mkrule(byname[gen]))
+        if rnd.random() < 0.35:
+            # two merchants whose names differ only in case: [ZED MART] next to the auto-named 'Zed Mart',
+            # [COFFEE] in front of [Coffee]
+            byname = {t[0]: t for t in RULE_POOL}
+            pool = [x for x in pool if x['name'] not in ('ZED MART', 'COFFEE', 'Coffee')]
+            pool.insert(rnd.randint(0, len(pool)), mkrule(byname['ZED MART']))
+            at = rnd.randint(0, len(pool))
+            pool.insert(at, mkrule(byname['Coffee']))
+            pool.insert(rnd.randint(0, at), mkrule(byname['COFFEE']))
+            r['case_pairs'] = True
         if with_supp:
             pool.insert(rnd.choice([0, 0, rnd.randint(0, len(pool))]), mkrule(rnd.choice(SUPP_RULES)))
         r['rules'] = pool
@@ -185,6 +198,22 @@ def gen_budget(rnd, profile=None):
     if want_supp and (profile == 'supp' or kind != 'rules'):
         kind = 'rules'      # a supplemental source is only ever looked at by a .rules expression
     sources = [gen_source(rnd, nm) for nm in names]
+    if n >= 2 and rnd.random() < 0.4:
+        # two sources with a byte-identical `format:` string whose explicit delimiter / has_header / negate_amount differ
+        i, j = rnd.sample(range(n), 2)
+        a, b = sources[i], sources[j]
+        b['cols'], b['datefmt'], b['sign'] = list(a['cols']), a['datefmt'], a['sign']
+        what = rnd.choice(['delimiter', 'has_header', 'negate', 'all', 'all'])
+        if what in ('delimiter', 'all'):
+            a['delimiter'], b['delimiter'] = rnd.sample([None, ',', ';', 'tab', '|'], 2)
+            if DELIMS[a['delimiter']] == DELIMS[b['delimiter']]:
+                b['delimiter'] = ';' if DELIMS[a['delimiter']] != ';' else '|'
+        if what in ('has_header', 'all'):
+            a['has_header'], b['has_header'] = rnd.choice([(True, False), (False, True), (None, False), (False, None)])
+        if what in ('negate', 'all'):
+            a['negate_amount'], b['negate_amount'] = rnd.choice([(True, None), (None, True), (True, False), (False, True)])
+        sync_file_to_settings(a)
+        sync_file_to_settings(b)
     if want_supp:
         sup = gen_source(rnd, SUPP_NAME, supplemental=True)
         # supplemental rows: some amounts/dates copied from real rows so that cross-source rules fire
@@ -196,7 +225,7 @@ def gen_budget(rnd, profile=None):
             q = src['q']
             if s0['sign'] == '+':
                 q = abs(q)
-            elif s0['sign'] == '-' or s0.get('negate_amount'):
+            elif negates(s0):
                 q = -q
             sup['rows'].append({'d': src['d'], 'desc': rnd.choice(['Book', 'Cable', 'Widget 9']), 'q': q,
                                 'kind': 'POS', 'loc': '', 'style': 'plain', 'bad': None})
@@ -205,10 +234,31 @@ def gen_budget(rnd, profile=None):
             'rule_mode': rnd.choice([None, 'first_match', 'most_specific', 'most_specific']), 'sources': sources,
             'rules': gen_rules(rnd, kind, want_supp),
             'views': rnd.choice([None, None, [list(v) for v in rnd.sample(VIEW_POOL, rnd.choice([1, 2, 3]))]])}
+    if spec['rules'].get('case_pairs'):
+        # make sure both members of each case pair really show up in the report
+        tgt = rnd.choice([s for s in sources if not s['supplemental']])
+        for desc, q in (('ZED MART', 200), ('ZED MART', 40), ('COFFEE ROASTERS', 30), ('SQ *COFFEE HUT', 18)):
+            tgt['rows'].append({'d': f'2025-{rnd.randint(1, 12):02d}-{rnd.randint(1, 28):02d}', 'desc': desc, 'q': q, 'kind': 'POS',
+                                'loc': '', 'style': 'plain', 'bad': None})
     if rnd.random() < 0.12 and n >= 2:
         cand = [s for s in sources if not s['supplemental']]
-        rnd.choice(cand)['state'] = rnd.choice(['missing', 'missing', 'dir', 'badutf8'])
+        rnd.choice(cand)['state'] = rnd.choice(BAD_STATES)
     return spec
+
+
+BAD_STATES = ['missing', 'missing', 'dir', 'badutf8', 'csvlimit', 'badregex', 'intdelim']
+# missing: no file | dir: a directory (OSError) | badutf8: UnicodeDecodeError | csvlimit: a stray quote followed by more than
+# 128 KiB (csv.Error: field larger than field limit) | badregex: `delimiter: "regex:("` (re.error) | intdelim: `delimiter: 5`
+# (AttributeError in the row iterator).  Each makes the source's parser raise; cmd_run must report it and carry on.
+
+
+def negates(s):
+    """resolve_source_format: an explicit negate_amount overrides the {-amount} of the format string."""
+    return bool(s['negate_amount']) if s.get('negate_amount') is not None else s['sign'] == '-'
+
+
+def setting_delimiter(s):
+    return {'badregex': 'regex:(', 'intdelim': 5}.get(s['state'], s['delimiter'])
 
 
 # ------------------------------------------------------------------ materialisation
@@ -294,8 +344,8 @@ def settings_yaml(spec):
         if s.get('template'):
             L.append('    columns:')
             L.append(f"      description: {yq(s['template'])}")
-        if s['delimiter'] is not None:
-            L.append(f"    delimiter: {yq(s['delimiter'])}")
+        if setting_delimiter(s) is not None:
+            L.append(f"    delimiter: {yq(setting_delimiter(s))}")
         if s['has_header'] is not None:
             L.append(f"    has_header: {'true' if s['has_header'] else 'false'}")
         if s['decimal_separator'] is not None:
@@ -377,6 +427,8 @@ def materialize(spec, root):
         data = file_text(s).encode('utf-8')
         if st == 'badutf8':
             data += b'2025-01-01,CAF\xe9 \xff,1.00\n'
+        if st == 'csvlimit':
+            data += b'"' + b'x,1\n' * 40000
         with open(p, 'wb') as f:
             f.write(data)
     return os.path.join(root, 'config')
@@ -393,7 +445,7 @@ def intended_rows(s):
         a = r['q'] / 4.0
         if s['sign'] == '+':
             a = abs(a)
-        elif s['sign'] == '-' or s.get('negate_amount'):
+        elif negates(s):
             a = -a
         if a == 0:
             continue
